@@ -232,7 +232,7 @@ func liesCase(it liesItem) C11Case {
 	return c
 }
 
-const liesRule = "enumerated lie catalogue: every (RPC, lie kind) of the Byzantine peer × regime {plain: 12-block chain crossing the allow (4) and require (7) heights, victim at genesis, AddBlocks path; instant: v2-only chain, victim bootstrapped with RetrieveCheckpoint at height 3 (asked from the liar first), SendCheckpoint + per-block validation + AddValidatedV2Blocks path} × position of the lie in the batch {first, middle, last} where a position applies (SendHeaders: broken link / low work / old timestamp / duplicate; SendV2Blocks: swapped / dropped body, reorder), the four state fields of the checkpoint state lie; SendCheckpoint lies for the instant regime only (the RPC is not issued on the plain path). Hostile-constant kinds are enumerated by variant (56 entries). One fixed-shape cluster per entry (1 honest peer joining 1.5 s after the liar, 1 liar claiming the honest chain, every block carries transactions, an invalid and a valid transaction-carrying child of the tip for the outline lies); same oracle as TestC11 (audits, tip work, Ban assertions where certain, convergence to the honest chain, stall window). An entry whose lie was not delivered is counted inconclusive:lie-not-reached (printed), never a violation; counters lies_enumerated / lies_delivered give delivered/total. Non-trivial = the lie was delivered."
+const liesRule = "enumerated lie catalogue: every (RPC, lie kind) of the Byzantine peer × regime {plain: 12-block chain crossing the allow (4) and require (7) heights, victim at genesis, AddBlocks path; instant: v2-only chain, victim bootstrapped with RetrieveCheckpoint at height 3 (asked from the liar first), SendCheckpoint + per-block validation + AddValidatedV2Blocks path} × position of the lie in the batch {first, middle, last} where a position applies (SendHeaders: broken link / low work / old timestamp / duplicate; SendV2Blocks: swapped / dropped body, reorder), the four state fields of the checkpoint state lie; SendCheckpoint lies for the instant regime only (the RPC is not issued on the plain path). Hostile-constant kinds are enumerated by variant (49 entries). One fixed-shape cluster per entry (1 honest peer joining 1.5 s after the liar, 1 liar claiming the honest chain, every block carries transactions, an invalid and a valid transaction-carrying child of the tip for the outline lies); same oracle as TestC11 (audits, tip work, Ban assertions where certain, convergence to the honest chain, stall window). An entry whose lie was not delivered is counted inconclusive:lie-not-reached (printed), never a violation; counters lies_enumerated / lies_delivered give delivered/total. Non-trivial = the lie was delivered."
 
 // TestC11Lies runs the enumerated stage; shards split the catalogue round
 // robin (VERIF_SHARD / VERIF_SHARDS).
